@@ -55,8 +55,8 @@ type piece struct {
 	guards []guard
 }
 
-var flagRe = regexp.MustCompile(`^\$?\.([A-Za-z_][A-Za-z0-9_]*)$`)
-var notFlagRe = regexp.MustCompile(`^not \$?\.([A-Za-z_][A-Za-z0-9_]*)$`)
+var flagRe = regexp.MustCompile(`^\(?\$?\.([A-Za-z_][A-Za-z0-9_]*)\)?$`)
+var notFlagRe = regexp.MustCompile(`^not \(?\$?\.([A-Za-z_][A-Za-z0-9_]*)\)?$`)
 
 // condGuard classifies an {{if}} pipeline: a bare top-level field (".X" / "$.X"), its negation
 // ("not $.X"), or anything else (a condition on the data).
@@ -82,6 +82,13 @@ type walker struct {
 	pieces []piece
 	trees  map[string]*parse.Tree
 	depth  int
+	// template variables -> what they are bound to, in canonical text: the element / index of
+	// a range over a canonical pipeline, or the canonical text of the assigned pipeline.  With
+	// it an action prints the same whatever the template's variables are called.
+	vars map[string]string
+	acts []string // canonical text of the printing actions, by token number
+	// does `.` still denote the template's root data here (not inside a range / with / define)?
+	dotRoot bool
 }
 
 func (w *walker) list(l *parse.ListNode, gs []guard) {
@@ -93,6 +100,84 @@ func (w *walker) list(l *parse.ListNode, gs []guard) {
 	}
 }
 
+// canon prints a pipeline / command / argument with every template variable replaced by its
+// binding and, where `.` is the root, `.X` written as `$.X`.
+func (w *walker) canon(n parse.Node) string {
+	switch x := n.(type) {
+	case *parse.PipeNode:
+		cmds := make([]string, len(x.Cmds))
+		for i, c := range x.Cmds {
+			cmds[i] = w.canon(c)
+		}
+		return strings.Join(cmds, " | ")
+	case *parse.CommandNode:
+		args := make([]string, len(x.Args))
+		for i, a := range x.Args {
+			if p, ok := a.(*parse.PipeNode); ok {
+				args[i] = "(" + w.canon(p) + ")"
+			} else {
+				args[i] = w.canon(a)
+			}
+		}
+		return strings.Join(args, " ")
+	case *parse.FieldNode:
+		if w.dotRoot {
+			return "$." + strings.Join(x.Ident, ".")
+		}
+		return "." + strings.Join(x.Ident, ".")
+	case *parse.VariableNode:
+		head := x.Ident[0]
+		if b, ok := w.vars[head]; ok {
+			head = b
+		}
+		if len(x.Ident) > 1 {
+			return head + "." + strings.Join(x.Ident[1:], ".")
+		}
+		return head
+	case *parse.ChainNode:
+		base := w.canon(x.Node)
+		if _, ok := x.Node.(*parse.PipeNode); ok {
+			base = "(" + base + ")"
+		}
+		return base + "." + strings.Join(x.Field, ".")
+	case *parse.DotNode:
+		if w.dotRoot {
+			return "$"
+		}
+		return "."
+	}
+	return n.String()
+}
+
+// bind records the variables a pipeline declares; rng: the pipeline is a range header
+// (`$i, $x := P` binds index and element, `$x := P` the element).
+func (w *walker) pipeText(pipe *parse.PipeNode) string {
+	return w.canon(&parse.PipeNode{NodeType: pipe.NodeType, Cmds: pipe.Cmds})
+}
+
+func (w *walker) bind(pipe *parse.PipeNode, text string, rng bool) {
+	switch {
+	case rng && len(pipe.Decl) == 2:
+		w.vars[pipe.Decl[0].Ident[0]] = "idx(" + text + ")"
+		w.vars[pipe.Decl[1].Ident[0]] = "elem(" + text + ")"
+	case rng && len(pipe.Decl) == 1:
+		w.vars[pipe.Decl[0].Ident[0]] = "elem(" + text + ")"
+	case len(pipe.Decl) == 1:
+		w.vars[pipe.Decl[0].Ident[0]] = text
+	}
+}
+
+func (w *walker) scoped(dotRoot bool, f func()) {
+	saved, savedRoot := w.vars, w.dotRoot
+	w.vars = map[string]string{}
+	for k, v := range saved {
+		w.vars[k] = v
+	}
+	w.dotRoot = dotRoot
+	f()
+	w.vars, w.dotRoot = saved, savedRoot
+}
+
 func (w *walker) node(n parse.Node, gs []guard) {
 	switch x := n.(type) {
 	case *parse.TextNode:
@@ -100,27 +185,37 @@ func (w *walker) node(n parse.Node, gs []guard) {
 	case *parse.ActionNode:
 		// an action that only declares variables prints nothing
 		if len(x.Pipe.Decl) > 0 {
+			w.bind(x.Pipe, w.pipeText(x.Pipe), false)
 			return
 		}
-		w.pieces = append(w.pieces, piece{"<" + x.Pipe.String() + ">", gs})
+		// an opaque token in the linearised text (the canonical text has blanks and
+		// parentheses, which the header regexps and go/parser must not see)
+		w.acts = append(w.acts, w.canon(x.Pipe))
+		w.pieces = append(w.pieces, piece{fmt.Sprintf("<@%d>", len(w.acts)-1), gs})
 	case *parse.IfNode:
-		w.list(x.List, cp(gs, condGuard(x.Pipe.String(), true)))
-		w.list(x.ElseList, cp(gs, condGuard(x.Pipe.String(), false)))
+		cond := w.canon(x.Pipe)
+		w.scoped(w.dotRoot, func() { w.list(x.List, cp(gs, condGuard(cond, true))) })
+		w.scoped(w.dotRoot, func() { w.list(x.ElseList, cp(gs, condGuard(cond, false))) })
 	case *parse.RangeNode:
-		p := x.Pipe.String()
-		if i := strings.Index(p, ":="); i >= 0 {
-			p = strings.TrimSpace(p[i+2:])
-		}
-		w.list(x.List, cp(gs, guard{"range", p, true}))
-		w.list(x.ElseList, cp(gs, guard{"range", p, false}))
+		p := w.pipeText(x.Pipe)
+		w.scoped(false, func() {
+			w.bind(x.Pipe, p, true)
+			w.list(x.List, cp(gs, guard{"range", p, true}))
+		})
+		w.scoped(w.dotRoot, func() { w.list(x.ElseList, cp(gs, guard{"range", p, false})) })
 	case *parse.WithNode:
-		w.list(x.List, cp(gs, guard{"with", x.Pipe.String(), true}))
-		w.list(x.ElseList, cp(gs, guard{"with", x.Pipe.String(), false}))
+		p := w.pipeText(x.Pipe)
+		w.scoped(false, func() {
+			w.bind(x.Pipe, p, false)
+			w.list(x.List, cp(gs, guard{"with", p, true}))
+		})
+		w.scoped(w.dotRoot, func() { w.list(x.ElseList, cp(gs, guard{"with", p, false})) })
 	case *parse.TemplateNode:
-		// inline the named template (bounded depth: PriorityBlock is recursive)
+		// inline the named template (bounded depth: the gsort key chain is recursive); inside it
+		// `.` is the argument
 		if t, ok := w.trees[x.Name]; ok && w.depth < 2 {
 			w.depth++
-			w.list(t.Root, cp(gs, guard{"with", "template " + x.Name, true}))
+			w.scoped(false, func() { w.list(t.Root, cp(gs, guard{"with", "template", true})) })
 			w.depth--
 		}
 	case *parse.ListNode:
@@ -131,11 +226,113 @@ func (w *walker) node(n parse.Node, gs []guard) {
 	}
 }
 
+// tuse: inside the body of an emitted func, a call of a method on the func's own receiver
+// (`e.Name(`) or of a function whose name is built from a template action (`Parse<T>(`): the
+// callee must be something the template declares under guards that hold whenever the use can
+// be emitted (or, for methods, something the receiver's type has by other means).
+type tuse struct {
+	in     string // name of the func whose body holds the use
+	name   string
+	method bool
+	guards []guard
+}
+
 var funcRe = regexp.MustCompile(`(?m)^func (\(([A-Za-z_][A-Za-z0-9_]* )?(\*?)[^)]*\) )?([^\s(]+)\(`)
 
 // funcsOf finds every `func` header in the linearised text; the guards are those of the
 // piece containing the `func` keyword.
-func funcsOf(pieces []piece) []tfunc {
+var tokenRe = regexp.MustCompile(`<@(\d+)>`)
+
+// usesOf: see tuse.  The body of a func runs from its header to the next line that is `}`.
+func usesOf(pieces []piece, acts []string) []tuse {
+	expand := func(t string) string {
+		return tokenRe.ReplaceAllStringFunc(t, func(m string) string {
+			var k int
+			fmt.Sscanf(m, "<@%d>", &k)
+			return "<" + acts[k] + ">"
+		})
+	}
+	var sb strings.Builder
+	starts := make([]int, len(pieces))
+	for i, p := range pieces {
+		starts[i] = sb.Len()
+		sb.WriteString(p.text)
+	}
+	all := sb.String()
+	guardsAt := func(at int) []guard {
+		k := sort.Search(len(starts), func(i int) bool { return starts[i] > at }) - 1
+		return pieces[k].guards
+	}
+	var out []tuse
+	seen := map[string]bool{}
+	for _, m := range funcRe.FindAllStringSubmatchIndex(all, -1) {
+		body := all[m[0]:]
+		if end := strings.Index(body, "\n}\n"); end >= 0 {
+			body = body[:end]
+		}
+		fname := expand(all[m[8]:m[9]])
+		add := func(off int, name string, method bool) {
+			u := tuse{in: fname, name: expand(name), method: method, guards: guardsAt(m[0] + off)}
+			key := fmt.Sprint(u.in, "|", u.name, "|", u.method, "|", u.guards)
+			if !seen[key] {
+				seen[key] = true
+				out = append(out, u)
+			}
+		}
+		if m[4] >= 0 { // a named receiver
+			recv := strings.TrimSpace(all[m[4]:m[5]])
+			re := regexp.MustCompile(`(^|[^A-Za-z0-9_.\]])\(?\*?` + regexp.QuoteMeta(recv) + `\)?\.([A-Za-z_][A-Za-z0-9_]*)\(`)
+			hdr := strings.Index(body, "\n")
+			if hdr < 0 {
+				continue
+			}
+			for _, u := range re.FindAllStringSubmatchIndex(body[hdr:], -1) {
+				add(hdr+u[4], body[hdr+u[4]:hdr+u[5]], true)
+			}
+		}
+		// functions named with a template action
+		re2 := regexp.MustCompile(`(^|[^A-Za-z0-9_.>])([A-Za-z_][A-Za-z0-9_]*<@\d+>[A-Za-z0-9_]*)\(`)
+		hdr := strings.Index(body, "\n")
+		if hdr < 0 {
+			continue
+		}
+		for _, u := range re2.FindAllStringSubmatchIndex(body[hdr:], -1) {
+			add(hdr+u[4], body[hdr+u[4]:hdr+u[5]], false)
+		}
+	}
+	return out
+}
+
+func galUses(name string, us []tuse) string {
+	var sb strings.Builder
+	fmt.Fprintf(&sb, "Definition %s : list tuse := [\n", name)
+	for i, u := range us {
+		gs := make([]string, len(u.guards))
+		for j, g := range u.guards {
+			gs[j] = galGuard(g)
+		}
+		sep := ";"
+		if i == len(us)-1 {
+			sep = ""
+		}
+		b := "false"
+		if u.method {
+			b = "true"
+		}
+		fmt.Fprintf(&sb, "  mk_tuse %s %s %s [%s]%s\n", q(u.in), q(u.name), b, strings.Join(gs, "; "), sep)
+	}
+	sb.WriteString("].\n\n")
+	return sb.String()
+}
+
+func funcsOf(pieces []piece, acts []string) []tfunc {
+	expand := func(t string) string {
+		return tokenRe.ReplaceAllStringFunc(t, func(m string) string {
+			var k int
+			fmt.Sscanf(m, "<@%d>", &k)
+			return "<" + acts[k] + ">"
+		})
+	}
 	var sb strings.Builder
 	starts := make([]int, len(pieces))
 	for i, p := range pieces {
@@ -160,7 +357,31 @@ func funcsOf(pieces []piece) []tfunc {
 			rest = rest[:nl]
 		}
 		ps, rs := signatureOf(rest)
-		out = append(out, tfunc{name: all[m[8]:m[9]], recv: recv, guards: pieces[k].guards, params: ps, results: rs})
+		name := all[m[8]:m[9]]
+		for i := range ps {
+			ps[i] = expand(ps[i])
+		}
+		for i := range rs {
+			rs[i] = expand(rs[i])
+		}
+		// the generated type is whatever the receiver is declared with: name it <RECV> in the
+		// signature, so that the table does not depend on how the template spells it
+		if m[2] >= 0 {
+			rt := strings.TrimSpace(all[m[2]:m[3]])
+			rt = strings.TrimSuffix(strings.TrimPrefix(rt, "("), ")")
+			if i := strings.LastIndexAny(rt, " *"); i >= 0 {
+				rt = rt[i+1:]
+			}
+			if rt = expand(rt); rt != "" {
+				for i := range ps {
+					ps[i] = strings.ReplaceAll(ps[i], rt, "<RECV>")
+				}
+				for i := range rs {
+					rs[i] = strings.ReplaceAll(rs[i], rt, "<RECV>")
+				}
+			}
+		}
+		out = append(out, tfunc{name: expand(name), recv: recv, guards: pieces[k].guards, params: ps, results: rs})
 	}
 	return out
 }
@@ -224,24 +445,24 @@ func signatureOf(rest string) ([]string, []string) {
 	return list(fd.Type.Params), list(fd.Type.Results)
 }
 
-func parseTemplate(path string) ([]tfunc, error) {
+func parseTemplate(path string) ([]tfunc, []tuse, error) {
 	raw, err := os.ReadFile(path)
 	if err != nil {
-		return nil, err
+		return nil, nil, err
 	}
 	trees := map[string]*parse.Tree{}
 	t := parse.New(filepath.Base(path))
 	t.Mode = parse.SkipFuncCheck
 	if _, err := t.Parse(string(raw), "", "", trees); err != nil {
-		return nil, err
+		return nil, nil, err
 	}
-	w := &walker{trees: trees}
+	w := &walker{trees: trees, vars: map[string]string{}, dotRoot: true}
 	root := trees[filepath.Base(path)]
 	if root == nil {
-		return nil, fmt.Errorf("no root tree for %s", path)
+		return nil, nil, fmt.Errorf("no root tree for %s", path)
 	}
 	w.list(root.Root, nil)
-	return funcsOf(w.pieces), nil
+	return funcsOf(w.pieces, w.acts), usesOf(w.pieces, w.acts), nil
 }
 
 func q(s string) string { return "\"" + strings.ReplaceAll(s, "\"", "\"\"") + "\"" }
@@ -389,12 +610,13 @@ func main() {
 		{"gerror_funcs", "gerror/gen/gerror.gotmpl"},
 		{"gsort_funcs", "gsort/gen/gsort.gotmpl"},
 	} {
-		fs, err := parseTemplate(filepath.Join(*repo, t.path))
+		fs, us, err := parseTemplate(filepath.Join(*repo, t.path))
 		if err != nil {
 			fmt.Fprintln(os.Stderr, "xlate_tmpl_methods:", err)
 			os.Exit(1)
 		}
 		sb.WriteString(galFuncs(t.def, fs))
+		sb.WriteString(galUses(strings.Replace(t.def, "_funcs", "_uses", 1), us))
 	}
 	for _, i := range []struct{ def, dir, name string }{
 		{"iface_genum_Enum", "genum", "Enum"},
